@@ -19,6 +19,10 @@ BothForms == {"int", "real"}
 NoUnit == {1}
 Units == {1, 2}
 NoCrop == {"absent"}
+NoRotation == {0}
+RotationArgs == {0, 90, 180, 270, 360, 450, -90}
+RotatesPlain == {0, 90, 180, 270, -90, 450}
+XsOff == {-1, 2}
 AllCrops == {"absent", "inside", "inside-urll", "outside"}
 XsTwo == {0, 2}
 YsOne == {-1}
